@@ -25,6 +25,8 @@ func VerifImportedText() {
 	desc := v.Bytes("desc", v.Param("k"))
 	v.Assume(utf8.ValidString(desc)) // free text consists of characters
 	hasQuote := strings.Contains(desc, "\"")
+	// the row amount: an outflow, an inflow, and a row of amount zero (e.g. a card verification)
+	amount := decimal.RequireFromString([]string{"-12.50", "7", "0", "0.00"}[v.Choice("amount", 4)])
 	reg := zzNewRegistry()
 	acc := reg.Accounts().MustGet("Assets:Bank")
 	tbd := reg.Accounts().TBDAccount()
@@ -33,7 +35,7 @@ func VerifImportedText() {
 		Date:        zzDate("2021-03-04"),
 		Description: desc,
 		Postings: posting.Builder{
-			Credit: tbd, Debit: acc, Commodity: reg.Commodities().MustGet("CHF"), Quantity: decimal.RequireFromString("-12.50"),
+			Credit: tbd, Debit: acc, Commodity: reg.Commodities().MustGet("CHF"), Quantity: amount,
 		}.Build(),
 	}.Build())
 	var sb strings.Builder
@@ -63,5 +65,9 @@ func VerifImportedText() {
 			effect = effect.Add(p.Quantity)
 		}
 	}
-	v.Assert(effect.Equal(decimal.RequireFromString("-12.50")), "amount-round-trips")
+	v.Assert(effect.Equal(amount), "amount-round-trips")
+	// ... and is re-printed unchanged
+	var sb2 strings.Builder
+	err = journal.Print(&sb2, b2.Build())
+	v.Assert(err == nil && sb2.String() == text, "emitted-text-is-reprinted-unchanged")
 }
